@@ -17,6 +17,9 @@ for d in sorted(glob.glob(V + '/seeded/*')):
     verdict = 'caught' if m.get('caught') else 'NOT caught'
     if hist:
         verdict = 'caught after strengthening' if m.get('caught') else 'NOT caught'
+    if m.get('superseded_by'):
+        sb = m['superseded_by']
+        verdict = ('written against an older PubSub; ported to the current code as ' + sb + ', which is caught') if sb != 'none' else 'written against an older PubSub; harmless on the current code, kept for the record (see meta.json note)'
     if m.get('expected') == 'thorough-only':
         verdict = 'missed by the quick tier, caught by the thorough tier (see meta.json)'
         sigs = [(m.get('thorough_result') or {}).get('signature', '')]
